@@ -152,6 +152,8 @@ typedef struct {
 	int vclass_weights[6];   /* 0: empty, 1: 1..30, 2: 100..300, 3: 128..1000, 4: >=16KiB, 5: > block */
 	int compressible;
 	size_t block_size;
+	int boundary_permille;   /* chance that a value length / extra key length sits on a 2^7k boundary */
+	int allow_2m;
 } shape_t;
 
 static const uint8_t TINY_ALPHA[4] = {0x00, 0xff, 'a', 'b'};
@@ -192,6 +194,14 @@ static inline void gen_one_key(rng_t *r, const shape_t *s, uint8_t **pk, size_t 
 	*pk = k; *plk = lk;
 }
 
+/* lengths on varint / fast-path boundaries (2^7, 2^14, 2^21) and their neighbours */
+static inline size_t boundary_len(rng_t *r, int allow_2m)
+{
+	static const size_t B[] = {127, 128, 129, 255, 256, 257, 16383, 16384, 16385, 32768, 49152};
+	if (allow_2m && rndn(r, 12) == 0) { static const size_t H[] = {2097151, 2097152, 2097153}; return PICK(r, H); }
+	return PICK(r, B);
+}
+
 static inline void gen_value(rng_t *r, const shape_t *s, uint8_t **pv, size_t *plv)
 {
 	int tot = 0, cls = 0;
@@ -207,6 +217,7 @@ static inline void gen_value(rng_t *r, const shape_t *s, uint8_t **pv, size_t *p
 	case 4: lv = 16384 + rndn(r, 4000); break;
 	default: lv = s->block_size + rndn(r, s->block_size / 2 + 10); break;
 	}
+	if (s->boundary_permille && rndp(r, s->boundary_permille)) { lv = boundary_len(r, s->allow_2m); STAT("gen.boundary_length_values"); }
 	uint8_t *v = xmalloc(lv);
 	if (s->compressible) {
 		uint8_t a = (uint8_t)rnd64(r), b = (uint8_t)rnd64(r);
@@ -238,6 +249,8 @@ static inline void gen_shape(rng_t *r, shape_t *s, size_t block_size, int allow_
 	if (allow_huge && rndp(r, 80)) w[4] = 3;
 	if (rndp(r, 120) && s->block_size <= 8192) w[5] = 5; /* entries larger than a block */
 	memcpy(s->vclass_weights, w, sizeof w);
+	s->boundary_permille = rndp(r, 300) ? (allow_huge ? 20 : 5) : 0;
+	s->allow_2m = allow_huge && rndp(r, 250);
 }
 static inline void shape_free(shape_t *s) { free(s->pfx); s->pfx = NULL; }
 
@@ -257,6 +270,21 @@ static inline void gen_model(rng_t *r, const shape_t *s, size_t n, int want_empt
 		gen_value(r, s, &v, &lv);
 		model_push(m, (const uint8_t *)"", 0, v, lv);
 		free(v);
+	}
+	/* keys whose length, and whose shared prefix with the following key, sit exactly on a varint boundary */
+	if (s->boundary_permille && n >= 2) {
+		int pairs = 1 + rndn(r, 3);
+		for (int q = 0; q < pairs; q++) {
+			size_t B = boundary_len(r, 0);
+			if (B > 20000) B = 16384;
+			uint8_t *k = xmalloc(B + 2), *v; size_t lv;
+			for (size_t i = 0; i < B; i++) k[i] = (uint8_t)(rndp(r, 600) ? 'q' : rnd64(r));
+			gen_value(r, s, &v, &lv); model_push(m, k, B, v, lv); free(v);
+			k[B] = (uint8_t)rnd64(r); k[B + 1] = (uint8_t)rnd64(r);
+			gen_value(r, s, &v, &lv); model_push(m, k, B + 1 + rndn(r, 2), v, lv); free(v);
+			free(k);
+			STAT("gen.boundary_length_key_pairs");
+		}
 	}
 	model_sort(m);
 	model_dedupe(m);
